@@ -335,11 +335,26 @@ func main() {
 			c.Stderr = &eb
 			c.Stdout = &eb
 			err := c.Run()
+			// a shard that could not be started at all (process or memory limits
+			// of a busy machine) is started again, a few times, before it counts
+			// as a machinery failure
+			for attempt := 0; attempt < 3 && err != nil; attempt++ {
+				if _, ok := err.(*exec.ExitError); ok {
+					break
+				}
+				time.Sleep(time.Duration(2+attempt*3) * time.Second)
+				c2 := exec.Command(c.Args[0], c.Args[1:]...)
+				c2.Env = runEnv
+				eb.Reset()
+				c2.Stderr, c2.Stdout = &eb, &eb
+				err = c2.Run()
+			}
 			r := res{}
 			if ee, ok := err.(*exec.ExitError); ok {
 				r.code = ee.ExitCode()
 			} else if err != nil {
 				r.code = 3
+				eb.WriteString("vcheck: shard could not be run: " + err.Error() + "\n")
 			}
 			r.err = eb.String()
 			if verbose && r.err != "" {
